@@ -469,7 +469,18 @@ impl Entities {
             }
         }
         let meta = &self.meta[entity.id as usize];
-        if meta.generation != entity.generation || meta.location.index == u32::MAX {
+        if meta.generation != entity.generation {
+            return Err(NoSuchEntity);
+        }
+        if meta.location.index == u32::MAX {
+            // Check if this was reserved from the freelist and is awaiting `flush`
+            let free = self.free_cursor.load(Ordering::Relaxed).max(0) as usize;
+            if self.pending[free..].contains(&entity.id) {
+                return Ok(Location {
+                    archetype: 0,
+                    index: u32::MAX,
+                });
+            }
             return Err(NoSuchEntity);
         }
         Ok(meta.location)
